@@ -613,7 +613,8 @@ def check(rep, args):
         check_config(rep, facts.program(cfg))
     cov = {
         "explanation": "constant-table rules on the rustc-evaluated PLANES; abstract interpretation of outcode/is_inside/status over finite domains; "
-                       "reachability / must-pass / provenance rules on Clip::clip and ClipPlane::clip_simple_polygon",
+                       "the three layers of the clipper (per-plane Sutherland-Hodgman step, plane hand-over, batch loop with fan) interpreted over sign scenarios with "
+                       "symbolic positions / attributes and compared as rational identities (sa/clip_sem.py)",
         "evaluations": len(rep.instances),
         "distinct_nontrivial": len({i["what"] for i in rep.instances}),
         "rules": ["T1", "T2", "D1", "D2", "D3", "D4", "D5", "D6"],
